@@ -23,7 +23,17 @@ class Check(RuntimeCheck):
     prop = 'C03'
     design_ref = 'DESIGN.md §4.4, §5 C03'
     theorems = ['C03_verify_iff', 'C03_lines', 'C03_line_count', 'C03_quantifier_meaning',
-                'C03_expectation_of_chain', 'C03_teardown_verdict', 'C03_counts_are_matches', 'C03_final_count_is_matches']
+                'C03_expectation_of_chain', 'C03_teardown_verdict', 'C03_counts_are_matches', 'C03_final_count_is_matches', 'C03_source_lower_bound', 'C03_source_verify_condition', 'C03_source_never_called']
+
+    def run(self, tier, seed, replay=None):
+        # re-translate the verification / slot-ownership functions of src/counter.rs and src/fn_mocker.rs first
+        from .. import engine
+        ok, msg = engine.run_translator('translate_counter')
+        self._translator = msg
+        return super().run(tier, seed, replay)
+
+    def extra_assumptions(self):
+        return ["tools/translate_counter.py: " + getattr(self, '_translator', 'not run') + " (an UNRECOGNISED function is tied by the correspondence run only)"]
 
     def rule(self):
         return ("exhaustive: 1..3 patterns (each accepting one distinct argument) over 1..2 methods, each with a chain from a "
